@@ -4,6 +4,7 @@ package c10
 import (
 	"crypto/sha256"
 	"fmt"
+	hdf5 "github.com/scigolib/hdf5"
 	"os"
 	"path/filepath"
 	"strings"
@@ -55,6 +56,11 @@ func gen(t *rapid.T) Case {
 				d.Chunk = append(d.Chunk, uint64(rapid.IntRange(1, int(e)).Draw(t, "chunk")))
 			}
 		}
+		if k, _ := d.Base(); chunked && k == "num" && rapid.Bool().Draw(t, "resizable") {
+			for range d.Dims {
+				d.MaxDims = append(d.MaxDims, hdf5.Unlimited)
+			}
+		}
 		dss = append(dss, info{p, d, chunked})
 		c.Base = append(c.Base, hist.Op{K: "dataset", Path: p, D: d}, hist.Op{K: "write", Path: p, Seed: rapid.IntRange(0, 999).Draw(t, "seed"), Mode: 1})
 		for a := 0; a < rapid.SampledFrom([]int{0, 0, 1, 3, 9}).Draw(t, "nattr"); a++ {
@@ -69,7 +75,28 @@ func gen(t *rapid.T) Case {
 		n := rapid.SampledFrom([]int{0, 1, 2, 4, 10}).Draw(t, "nops")
 		for i := 0; i < n; i++ {
 			o := dss[rapid.IntRange(0, len(dss)-1).Draw(t, "obj")]
-			switch rapid.SampledFrom([]string{"attr", "attr", "attr", "delattr", "write", "create", "mkgroup", "fit", "fit"}).Draw(t, "k") {
+			switch rapid.SampledFrom([]string{"attr", "attr", "attr", "delattr", "write", "create", "mkgroup", "fit", "fit", "resize", "hard", "burst", "gattr"}).Draw(t, "k") {
+			case "resize":
+				if o.d.MaxDims != nil {
+					var dims []uint64
+					for range o.d.Dims {
+						dims = append(dims, uint64(rapid.IntRange(1, 12).Draw(t, "newExtent")))
+					}
+					// followed by a full write: what a resize alone leaves behind is C13's subject
+					ops = append(ops, hist.Op{K: "resize", Path: o.path, Dims: dims}, hist.Op{K: "write", Path: o.path, Seed: rapid.IntRange(0, 999).Draw(t, "wseed"), Mode: 1})
+				}
+			case "hard":
+				created++
+				ops = append(ops, hist.Op{K: "hard", Path: fmt.Sprintf("/hl%d", created), Target: o.path})
+			case "burst":
+				// enough new names in one session to leave compact attribute storage
+				for j := 0; j < rapid.SampledFrom([]int{3, 9, 12}).Draw(t, "burst"); j++ {
+					ops = append(ops, hist.Op{K: "attr", Path: o.path, Name: fmt.Sprintf("burst%d", j), A: &hist.AttrVal{Kind: []string{"i32", "str", "f64"}[j%3], N: 5, Seed: j + s}})
+				}
+			case "gattr":
+				if inGroup {
+					ops = append(ops, hist.Op{K: "attr", Path: "/g", Name: rapid.SampledFrom(names).Draw(t, "aname"), A: &hist.AttrVal{Kind: "i32", Seed: rapid.IntRange(0, 999).Draw(t, "aseed")}})
+				}
 			case "fit":
 				ops = append(ops, hist.Op{K: "attrfit", Path: o.path, Name: rapid.SampledFrom(names).Draw(t, "aname"), Delta: rapid.IntRange(-4, 6).Draw(t, "delta"), Seed: rapid.IntRange(0, 999).Draw(t, "fseed")})
 			case "attr":
@@ -86,7 +113,16 @@ func gen(t *rapid.T) Case {
 				ops = append(ops, hist.Op{K: "write", Path: o.path, Seed: rapid.IntRange(0, 999).Draw(t, "wseed"), Mode: 1})
 			case "create":
 				created++
-				ops = append(ops, hist.Op{K: "dataset", Path: fmt.Sprintf("/new%d", created), D: &hist.DSpec{Type: "i32", Dims: []uint64{2}}})
+				nd := &hist.DSpec{Type: rapid.SampledFrom([]string{"i32", "f64", "u8"}).Draw(t, "ntype"), Dims: []uint64{uint64(rapid.IntRange(1, 6).Draw(t, "nextent"))}}
+				if rapid.Bool().Draw(t, "nchunked") {
+					nd.Chunk = []uint64{uint64(rapid.IntRange(1, int(nd.Dims[0])).Draw(t, "nchunk"))}
+				}
+				np := fmt.Sprintf("/new%d", created)
+				ops = append(ops, hist.Op{K: "dataset", Path: np, D: nd})
+				if rapid.Bool().Draw(t, "nwrite") {
+					ops = append(ops, hist.Op{K: "write", Path: np, Seed: rapid.IntRange(0, 999).Draw(t, "wseed"), Mode: 1})
+				}
+				dss = append(dss, info{np, nd, nd.Chunk != nil}) // later sessions work on it like on any other dataset
 			case "mkgroup":
 				created++
 				ops = append(ops, hist.Op{K: "group", Path: fmt.Sprintf("/newg%d", created)})
